@@ -3,6 +3,7 @@
 -/
 import Depccg.OpsXml
 import Depccg.Print.More
+import Depccg.GlueTree
 
 namespace Depccg
 namespace OpsMore
@@ -50,6 +51,50 @@ def dispatch (op : String) (ts : List String) : Option String :=
         | _, _ => "bad-op"
       | [] => "bad-op")
   | _ => none
+
+end OpsMore
+end Depccg
+
+namespace Depccg
+namespace OpsMore
+open Wire OpsTree GlueTree Search
+
+partial def pDeriv : P Deriv
+  | "L" :: ts => do let (t, ts) ← pNat ts; let (c, ts) ← pNat ts; pure (.leaf t c, ts)
+  | "U" :: ts => do
+    let (c, ts) ← pNat ts; let (r, ts) ← pNat ts; let (d, ts) ← pDeriv ts; pure (.un c r d, ts)
+  | "B" :: ts => do
+    let (c, ts) ← pNat ts; let (r, ts) ← pNat ts; let (h, ts) ← pNat ts
+    let (l, ts) ← pDeriv ts; let (rr, ts) ← pDeriv ts; pure (.bin c r (h != 0) l rr, ts)
+  | _ => none
+
+def pEntry : P CacheEntry := fun ts => do
+  let (c, ts) ← pNat ts; let (h, ts) ← pNat ts; let (s, ts) ← pStr ts; let (y, ts) ← pStr ts
+  pure (⟨c, h != 0, s, y⟩, ts)
+
+def pBinRow : P ((Nat × Nat) × List CacheEntry) := fun ts => do
+  let (x, ts) ← pNat ts; let (y, ts) ← pNat ts; let (es, ts) ← pList pEntry ts; pure (((x, y), es), ts)
+
+def pUnRow : P (Nat × List CacheEntry) := fun ts => do
+  let (x, ts) ← pNat ts; let (es, ts) ← pList pEntry ts; pure ((x, es), ts)
+
+/-- `retrieve <cats> <bin rows> <un rows> <tokens> <deriv>` -/
+def retrieveOp (ts : List String) : String :=
+  match (do
+    let (cats, ts) ← pList pCat ts
+    let (bins, ts) ← pList pBinRow ts
+    let (uns, ts) ← pList pUnRow ts
+    let (toks, ts) ← pList pTok ts
+    let (d, ts) ← pDeriv ts
+    if ts.isEmpty then
+      let T : Tables := {
+        cats := fun i => cats[i]?,
+        bin := fun x y => match bins.find? fun r => r.1.1 == x && r.1.2 == y with | some r => r.2 | none => [],
+        un := fun x => match uns.find? fun r => r.1 == x with | some r => r.2 | none => [] }
+      pure (retrieve T toks d)
+    else none) with
+  | some r => encExcept encTree r
+  | none => "bad-op"
 
 end OpsMore
 end Depccg
